@@ -61,7 +61,14 @@ def property_from_ref_contract(kind):
         pdefault = SV(z3.Const("parent_default", I.Z.JV))
         I.assume(z3.Not(z3.Or(I.Z.rec["unset"](pdefault.t), I.Z.rec["absent"](pdefault.t), I.Z.rec["obj"](pdefault.t),
                               I.Z.rec["val"](pdefault.t))))
-        parent = SOpaque("parent", attrs={"default": pdefault}) if has_parent else None
+        # what else the wrapper says (its `type`, possibly a list with "null") is the wrapper's business: the class shared
+        # by every user of the reference must not be edited because of it
+        ptype = None
+        if has_parent and kind in ("UnionProperty", "ModelProperty"):
+            ptype = [None, oai.DataType.OBJECT, SList([oai.DataType.OBJECT, oai.DataType.NULL])][sp.choice(3)]
+        parent = SOpaque("parent", attrs={"default": pdefault, "type": ptype, "nullable": None}) if has_parent else None
+        if kind == "UnionProperty":
+            existing.fields["inner_properties"] = SList([sp.prop("StringProperty", "member0", 1), sp.prop("IntProperty", "member1", 1)])
         ref = SStr(z3.Const("ref", z3.StringSort()))
         data = SObj(oai.Reference, {"ref": ref})
         config = SOpaque("config", attrs={"field_prefix": SStr(z3.Const("field_prefix", z3.StringSort()))})
@@ -69,6 +76,10 @@ def property_from_ref_contract(kind):
         roots_token = SOpaque("roots")
         roots = GrowSet("roots")
         snap = dict(existing.fields)
+        deep = {f: list(v.items) for f, v in existing.fields.items() if isinstance(v, SList)}
+        deep.update({f"{f}[{n}]": dict(x.fields) for f, v in existing.fields.items() if isinstance(v, SList)
+                     for n, x in enumerate(v.items) if isinstance(x, SObj)})
+        snap["__deep__"] = deep
         return SFunc("pyfunc", props._property_from_ref), [], dict(name=name, required=required, parent=parent, data=data,
                                                                     schemas=schemas, config=config, roots=roots), {
             "existing": existing, "schemas": schemas, "cbr": cbr, "deps": deps, "roots": roots, "parent": parent,
@@ -130,7 +141,7 @@ def property_from_ref_contract(kind):
             return False
         cs = []
         for f, v in i["snap"].items():
-            if f in ("name", "required", "python_name", "default"):
+            if f in ("name", "required", "python_name", "default", "__deep__"):
                 continue
             if prop.fields.get(f) is not v:
                 return False
@@ -143,6 +154,28 @@ def property_from_ref_contract(kind):
         if any(c is False for c in cs):
             return False
         return z3.And(*cs) if cs else True
+
+    def registered_unchanged(ctx):
+        """the registered property (shared by every other user of the reference) keeps every field, and its member list
+        keeps its members (same objects, same fields): nothing the using site says is written into it"""
+        i = ctx.inputs
+        ex = i["existing"]
+        snap = i["snap"]
+        if set(ex.fields) != set(snap) - {"__deep__"}:
+            return False
+        if any(ex.fields[f] is not v for f, v in snap.items() if f != "__deep__"):
+            return False
+        for f, items in snap["__deep__"].items():
+            if "[" in f:
+                continue
+            cur = ex.fields[f].items
+            if len(cur) != len(items) or any(a is not b for a, b in zip(cur, items)):
+                return False
+            for n, x in enumerate(cur):
+                want = snap["__deep__"].get(f"{f}[{n}]")
+                if want is not None and (set(x.fields) != set(want) or any(x.fields[k] is not want[k] for k in want)):
+                    return False
+        return True
 
     def dependency_recorded(ctx):
         """success: roots are added to the dependants of the referenced path, in a set that belongs to the table (not the
@@ -190,13 +223,17 @@ def property_from_ref_contract(kind):
         Clause("shares-registered-class", shares_class,
                statement="result == registered property with name/required/python_name/default replaced; every other field "
                          "(class_info, values, inner properties...) is the registered object's", props=["C20"]),
+        Clause("registered-property-unchanged", registered_unchanged,
+               statement="the registered property keeps every field and (a union) its member list with the same member records, "
+                         "whatever the using site's wrapper says (type / nullable / default): other users of the reference see "
+                         "the component as declared", props=["C20", "C08", "C10", "C12"]),
         Clause("dependency-recorded", dependency_recorded,
                statement="success: roots added to dependencies[ref] (a set owned by the table, not the caller's object); "
                          "failure: dependencies untouched", props=["C20", "C08", "C01"]),
         Clause("error-names-the-using-item", error_data, statement="a PropertyError carries the reference or its wrapper as data",
                props=["C20", "C07"]),
     ]
-    case = Case(f"existing={kind}", make, clauses, raises=(), props=["C20", "C13", "C08", "C17"])
+    case = Case(f"existing={kind}", make, clauses, raises=(), props=["C20", "C13", "C08", "C17", "C10"])
     return FnContract(f"{P}:_property_from_ref", [case])
 
 
